@@ -59,62 +59,78 @@ Fixpoint enc_seq (c : cfg) (ms : list rmodel) (l : list (Z * Z)) (a : ans) : ans
       end
   end.
 
-Fixpoint ans_loop (fuel : nat) (c : cfg) (ms : list rmodel) (l : list Z) (a : ans) : list Z :=
+(* [tw] : the twin forked by op 16 (receives encodes/decodes, no inspections) *)
+Fixpoint ans_loop (fuel : nat) (c : cfg) (ms : list rmodel) (l : list Z) (a : ans) (tw : option ans)
+  : list Z :=
+  let fin := out_raw a ++ match tw with Some t => out_raw t | None => [] end in
   match fuel with
-  | O => out_raw a
+  | O => fin
   | S fuel' =>
     match l with
-    | [] => out_raw a
+    | [] => fin
     | 1 :: m :: s :: r =>
-        match ans_encode_sym c (get_model ms m) s a with
-        | Some a' => 0 :: ans_loop fuel' c ms r a'
-        | None => ERR_IMPOSSIBLE :: ans_loop fuel' c ms r a
+        let '(a', e) := match ans_encode_sym c (get_model ms m) s a with
+                        | Some a' => (a', 0) | None => (a, ERR_IMPOSSIBLE) end in
+        match tw with
+        | None => e :: ans_loop fuel' c ms r a' None
+        | Some t =>
+            let '(t', e') := match ans_encode_sym c (get_model ms m) s t with
+                             | Some t' => (t', 0) | None => (t, ERR_IMPOSSIBLE) end in
+            e :: e' :: ans_loop fuel' c ms r a' (Some t')
         end
     | 2 :: m :: r =>
         let '(s, a') := ans_decode_sym c (get_model ms m) a in
-        s :: ans_loop fuel' c ms r a'
+        match tw with
+        | None => s :: ans_loop fuel' c ms r a' None
+        | Some t => let '(s', t') := ans_decode_sym c (get_model ms m) t in
+                    s :: s' :: ans_loop fuel' c ms r a' (Some t')
+        end
+    | 16 :: r => 0 :: ans_loop fuel' c ms r a (Some a)
     | 3 :: r =>
         match ans_from_compressed c (ans_words c a) with
-        | Some a' => 0 :: ans_loop fuel' c ms r a'
-        | None => ERR_IMPORT :: ans_loop fuel' c ms r {| bulk := rev (ans_words c a); st := 0 |}
+        | Some a' => 0 :: ans_loop fuel' c ms r a' tw
+        | None => ERR_IMPORT :: ans_loop fuel' c ms r {| bulk := rev (ans_words c a); st := 0 |} tw
         end
-    | 4 :: r => out_words (ans_words c a) ++ ans_loop fuel' c ms r a
-    | 5 :: r => out_words (ans_words c a) ++ ans_loop fuel' c ms r a
+    | 4 :: r => out_words (ans_words c a) ++ ans_loop fuel' c ms r a tw
+    | 5 :: r =>
+        (* get_compressed: open the guard, show the view, drop it *)
+        let g := ans_guard_open c a in
+        out_words (ans_guard_view g) ++ ans_loop fuel' c ms r (ans_guard_close c g) tw
     | 6 :: r =>
-        match ans_get_binary c a with
-        | Some ws => out_words ws ++ ans_loop fuel' c ms r a
-        | None => ERR_BINARY :: ans_loop fuel' c ms r a
+        match ans_sealed_open c a with
+        | Some g => out_words (ans_guard_view g) ++ ans_loop fuel' c ms r (ans_sealed_close c g) tw
+        | None => ERR_BINARY :: ans_loop fuel' c ms r a tw
         end
     | 7 :: r =>
         nZ (ans_num_words c a) :: nZ (WB c * ans_num_words c a) :: nZ (ans_num_valid_bits c a)
-          :: (if ans_is_empty a then 1 else 0) :: ans_loop fuel' c ms r a
+          :: (if ans_is_empty a then 1 else 0) :: ans_loop fuel' c ms r a tw
     | 8 :: r =>
         match ans_into_binary c a with
-        | Some ws => out_words ws ++ ans_loop fuel' c ms r a
-        | None => ERR_BINARY :: ans_loop fuel' c ms r a
+        | Some ws => out_words ws ++ ans_loop fuel' c ms r a tw
+        | None => ERR_BINARY :: ans_loop fuel' c ms r a tw
         end
     | 9 :: m :: r =>
         let '(ss, r') := read_list r in
         let '(a', e) := enc_iid c (get_model ms m) ss a in
-        e :: ans_loop fuel' c ms r' a'
+        e :: ans_loop fuel' c ms r' a' tw
     | 10 :: m :: r =>
         let '(ss, r') := read_list r in
         let '(a', e) := enc_iid c (get_model ms m) (rev ss) a in
-        e :: ans_loop fuel' c ms r' a'
+        e :: ans_loop fuel' c ms r' a' tw
     | 11 :: m :: r =>
         let '(ss, r') := read_list r in
         let '(a', e) := try_enc c (get_model ms m) ss 0 (Z.to_nat (hdz r')) a in
-        e :: ans_loop fuel' c ms (tl r') a'
-    | 12 :: r => out_raw a ++ ans_loop fuel' c ms r a
+        e :: ans_loop fuel' c ms (tl r') a' tw
+    | 12 :: r => out_raw a ++ ans_loop fuel' c ms r a tw
     | 13 :: m :: k :: r =>
         let '(a', ss) := dec_iid c (get_model ms m) (Z.to_nat k) a in
-        ss ++ ans_loop fuel' c ms r a'
-    | 14 :: r => 0 :: ans_loop fuel' c ms r a
+        ss ++ ans_loop fuel' c ms r a' tw
+    | 14 :: r => 0 :: ans_loop fuel' c ms r a tw
     | 15 :: r =>
         let '(seq, r') := read_list r in
         let '(a1, ss) := dec_seq c ms seq a in
         let '(a2, es) := enc_seq c ms (rev (combine seq ss)) a1 in
-        ss ++ es ++ ans_loop fuel' c ms r' a2
+        ss ++ es ++ ans_loop fuel' c ms r' a2 tw
     | _ => [PANIC]
     end
   end.
@@ -129,12 +145,12 @@ Definition run_ans (inp : list Z) : list Z :=
           let '(ws, r3) := read_list r2 in
           let ws := map zN ws in
           match kind with
-          | 0 => ans_loop (length r3) c ms r3 ans_empty
+          | 0 => ans_loop (length r3) c ms r3 ans_empty None
           | 1 => match ans_from_compressed c ws with
-                 | Some a => ans_loop (length r3) c ms r3 a
+                 | Some a => ans_loop (length r3) c ms r3 a None
                  | None => [ERR_IMPORT]
                  end
-          | _ => ans_loop (length r3) c ms r3 (ans_from_binary c ws)
+          | _ => ans_loop (length r3) c ms r3 (ans_from_binary c ws) None
           end
       | [] => [PANIC]
       end
